@@ -504,4 +504,654 @@ theorem finishFields_all_optional (E : Ext) (env : Env) :
       simp only [List.map, List.mem_cons, not_or] at hn
       rw [hkeep n hn.2, hpres n hn.1]
 
+/-! ### Nothing but the validation error escapes: `validate` -/
+
+/-- nothing but the validation error escapes -/
+def NoCrash {α} (r : R α) : Prop := ∀ e, r ≠ .error (.crash e)
+
+theorem NoCrash.ok {α} (a : α) : NoCrash (.ok a : R α) := fun _ h => by cases h
+theorem NoCrash.verr {α} (m : String) : NoCrash (verr m : R α) := fun _ h => by cases h
+theorem NoCrash.verr' {α} (m : String) : NoCrash (.error (.verr m) : R α) := fun _ h => by cases h
+
+theorem NoCrash.bind {α β : Type} {x : R α} {f : α → R β} (hx : NoCrash x) (hf : ∀ a, x = .ok a → NoCrash (f a)) :
+    NoCrash (x >>= f) := by
+  cases x with
+  | error e => intro e' h; exact hx e' (by cases h; rfl)
+  | ok a => exact hf a rfl
+
+theorem NoCrash.map {α β : Type} {x : R α} {f : α → β} (hx : NoCrash x) : NoCrash (x.map f) := by
+  cases x with
+  | error e => intro e' h; exact hx e' (by cases h; rfl)
+  | ok a => exact NoCrash.ok _
+
+theorem validateList_nc (E : Ext) (env : Env) (t : PTy) (ih : ∀ v, NoCrash (validate E env t v)) :
+    ∀ xs, NoCrash (validateList E env t xs) := by
+  intro xs
+  induction xs with
+  | nil => exact NoCrash.ok _
+  | cons x xs ihx =>
+    simp only [validateList]
+    exact NoCrash.bind (ih x) fun _ _ => NoCrash.bind ihx fun _ _ => NoCrash.ok _
+
+theorem validateDict_nc (E : Ext) (env : Env) (kt vt : PTy) (ihk : ∀ v, NoCrash (validate E env kt v))
+    (ihv : ∀ v, NoCrash (validate E env vt v)) :
+    ∀ kvs, NoCrash (validateDict E env kt vt kvs) := by
+  intro kvs
+  induction kvs with
+  | nil => exact NoCrash.ok _
+  | cons kv rest ih =>
+    obtain ⟨k, x⟩ := kv
+    simp only [validateDict]
+    exact NoCrash.bind (ihk k) fun _ _ => NoCrash.bind (ihv x) fun _ _ => NoCrash.bind ih fun _ _ => NoCrash.ok _
+
+/-- `validate` raises nothing but `ValidationError` -/
+theorem validate_nc (E : Ext) (env : Env) (t : PTy) : ∀ v, NoCrash (validate E env t v) := by
+  induction t with
+  | list fl item a b ih =>
+    intro v; unfold validate
+    cases v <;> simp only [] <;> repeat' split
+    all_goals first | exact NoCrash.ok _ | exact NoCrash.verr _ | exact NoCrash.map (validateList_nc E env item ih _)
+  | map fl kt vt ihk ihv =>
+    intro v; unfold validate
+    cases v <;> simp only [] <;> repeat' split
+    all_goals first | exact NoCrash.ok _ | exact NoCrash.verr _ | exact NoCrash.map (validateDict_nc E env kt vt ihk ihv _)
+  | _ =>
+    intro v; unfold validate
+    cases v <;> simp only [] <;> repeat' split
+    all_goals first | exact NoCrash.ok _ | exact NoCrash.verr _
+
+/-! ### Environment and class-table facts -/
+
+theorem struct?_mem (env : Env) (c : String) (s : StructDef) (h : env.struct? c = some s) :
+    s ∈ env.structs ∧ s.cls = c := by
+  unfold Env.struct? at h
+  exact ⟨List.mem_of_find?_eq_some h, by simpa using List.find?_some h⟩
+
+theorem union?_mem (env : Env) (c : String) (u : UnionDef) (h : env.union? c = some u) :
+    u ∈ env.unions ∧ u.cls = c := by
+  unfold Env.union? at h
+  exact ⟨List.mem_of_find?_eq_some h, by simpa using List.find?_some h⟩
+
+theorem envWF_struct (env : Env) (hwf : envWF env = true) (c : String) (s : StructDef)
+    (h : env.struct? c = some s) : s.wf env = true := by
+  simp only [envWF, Bool.and_eq_true, List.all_eq_true] at hwf
+  exact hwf.1.2 s (struct?_mem env c s h).1
+
+theorem envWF_union (env : Env) (hwf : envWF env = true) (c : String) (u : UnionDef)
+    (h : env.union? c = some u) : u.wf env = true := by
+  simp only [envWF, Bool.and_eq_true, List.all_eq_true] at hwf
+  exact hwf.2 u (union?_mem env c u h).1
+
+theorem mem_allFieldsAttrRev (X : Option String) :
+    ∀ (ls : List Level) (l : List FieldDef), allFieldsAttrRev X ls = some l →
+    ∀ f ∈ l, f ∈ ls.flatMap (·.fields) := by
+  intro ls
+  induction ls with
+  | nil => intro l h; simp [allFieldsAttrRev] at h
+  | cons lv parents ih =>
+    intro l h f hf
+    simp only [allFieldsAttrRev] at h
+    split at h
+    · split at h
+      · cases hp : allFieldsAttrRev X parents with
+        | none => simp [hp] at h
+        | some lp =>
+          simp only [hp, Option.map_some, Option.some.injEq] at h
+          subst h
+          rw [List.flatMap_cons]
+          rcases List.mem_append.mp hf with h1 | h2
+          · exact List.mem_append_right _ (ih lp hp f h1)
+          · exact List.mem_append_left _ (List.mem_filter.mp h2).1
+      · simp only [Option.some.injEq] at h
+        subst h
+        rw [List.flatMap_cons]
+        exact List.mem_append_left _ (List.mem_filter.mp hf).1
+    · rw [List.flatMap_cons]
+      exact List.mem_append_right _ (ih l h f hf)
+
+theorem mem_allFieldsAttr (s : StructDef) (X : Option String) (f : FieldDef)
+    (hf : f ∈ (s.allFieldsAttr X).getD []) : f ∈ s.allAttrs := by
+  unfold StructDef.allFieldsAttr at hf
+  cases h : allFieldsAttrRev X s.levels.reverse with
+  | none => simp [h] at hf
+  | some l =>
+    simp only [h, Option.getD_some] at hf
+    have := mem_allFieldsAttrRev X _ l h f hf
+    simp only [StructDef.allAttrs, List.mem_flatMap, List.mem_reverse] at this ⊢
+    exact this
+
+theorem fieldsFor_subset (s : StructDef) (perms : List String) (f : FieldDef) (hf : f ∈ s.fieldsFor perms) :
+    f ∈ s.allAttrs := by
+  unfold StructDef.fieldsFor at hf
+  rcases List.mem_append.mp hf with h | h
+  · exact mem_allFieldsAttr s none f h
+  · obtain ⟨p, _, hp⟩ := List.mem_flatMap.mp h
+    exact mem_allFieldsAttr s (some p) f hp
+
+theorem mem_tagmapAttrRev (X : Option String) :
+    ∀ (ls : List ULevel) (l : List TagDef), tagmapAttrRev X ls = some l →
+    ∀ t ∈ l, t ∈ ls.flatMap (·.tags) := by
+  intro ls
+  induction ls with
+  | nil => intro l h; simp [tagmapAttrRev] at h
+  | cons lv parents ih =>
+    intro l h f hf
+    simp only [tagmapAttrRev] at h
+    split at h
+    · split at h
+      · cases hp : tagmapAttrRev X parents with
+        | none => simp [hp] at h
+        | some lp =>
+          simp only [hp, Option.map_some, Option.some.injEq] at h
+          subst h
+          rw [List.flatMap_cons]
+          rcases List.mem_append.mp hf with h1 | h2
+          · exact List.mem_append_left _ (List.mem_filter.mp h1).1
+          · exact List.mem_append_right _ (ih lp hp f h2)
+      · simp only [Option.some.injEq] at h
+        subst h
+        rw [List.flatMap_cons]
+        exact List.mem_append_left _ (List.mem_filter.mp hf).1
+    · rw [List.flatMap_cons]
+      exact List.mem_append_right _ (ih l h f hf)
+
+theorem findTag_mem (n : String) : ∀ (l : List TagDef) (t : TagDef), findTag n l = some t → t ∈ l ∧ t.name = n := by
+  intro l
+  induction l with
+  | nil => intro t h; simp [findTag] at h
+  | cons a rest ih =>
+    intro t h
+    simp only [findTag] at h
+    split at h
+    · rename_i hn
+      cases h
+      exact ⟨List.mem_cons_self, by simpa using hn⟩
+    · obtain ⟨h1, h2⟩ := ih t h
+      exact ⟨List.mem_cons_of_mem _ h1, h2⟩
+
+theorem tagmapAttr_findTag_mem (u : UnionDef) (X : Option String) (tag : String) (t : TagDef)
+    (h : (u.tagmapAttr X).bind (findTag tag) = some t) : t ∈ u.levels.flatMap (·.tags) ∧ t.name = tag := by
+  unfold UnionDef.tagmapAttr at h
+  cases hm : tagmapAttrRev X u.levels.reverse with
+  | none => simp [hm] at h
+  | some l =>
+    simp only [hm, Option.bind_some] at h
+    obtain ⟨h1, h2⟩ := findTag_mem tag l t h
+    have := mem_tagmapAttrRev X _ l hm t h1
+    simp only [List.mem_flatMap, List.mem_reverse] at this ⊢
+    exact ⟨this, h2⟩
+
+/-- the value type `_get_val_data_type` returns belongs to a declared tag of that name -/
+theorem valDataType_mem (u : UnionDef) (tag : String) (perms : List String) (ft : PTy)
+    (h : u.valDataType tag perms = some ft) :
+    ∃ t ∈ u.levels.flatMap (·.tags), t.name = tag ∧ t.ty = ft := by
+  unfold UnionDef.valDataType at h
+  split at h
+  · rename_i t ht
+    obtain ⟨p, _, hp⟩ := List.exists_of_findSome?_eq_some ht
+    obtain ⟨h1, h2⟩ := tagmapAttr_findTag_mem u (some p) tag t hp
+    exact ⟨t, h1, h2, by simpa using h⟩
+  · cases hn : (u.tagmapAttr none).bind (findTag tag) with
+    | none => simp [hn] at h
+    | some t =>
+      simp only [hn, Option.map_some, Option.some.injEq] at h
+      obtain ⟨h1, h2⟩ := tagmapAttr_findTag_mem u none tag t hn
+      exact ⟨t, h1, h2, h⟩
+
+
+theorem StructDef.wf_parts (env : Env) (s : StructDef) (h : s.wf env = true) :
+    (match s.levels.getLast? with | some l => l.cls == s.cls | none => false) = true ∧
+    nodupS (s.allAttrs.map (·.name)) = true ∧
+    (∀ f ∈ s.allAttrs, (!f.name.startsWith ".") = true ∧ (f.name != "") = true) ∧
+    (∀ f ∈ s.allAttrs, tyWF env f.ty = true ∧ (match f.ty with | .void _ => true | _ => false) = false) ∧
+    (∀ l ∈ s.levels, ∃ a, env.struct? l.cls = some a ∧ levelsPrefix a.levels s.levels = true ∧
+        a.levels.length ≤ s.levels.length) ∧
+    (∀ subs, s.subtypes = some subs →
+      nodupS (subs.map fun (_, c, _) => c) = true ∧
+      (∀ e ∈ subs, e.1.isEmpty = false ∧ e.2.1 ≠ s.cls ∧ ∃ d, env.struct? e.2.1 = some d ∧
+        levelsPrefix s.levels d.levels = true ∧ d.subtypes.isSome = e.2.2) ∧
+      nodupS (subs.map fun (tags, _, _) => String.intercalate "\x00" tags) = true) := by
+  simp only [StructDef.wf, Bool.and_eq_true, List.all_eq_true] at h
+  obtain ⟨⟨⟨⟨⟨h1, h2⟩, h3⟩, h4⟩, h5⟩, h6⟩ := h
+  refine ⟨h1, h2, h3, ?_, ?_, ?_⟩
+  · intro f hf
+    have := h4 f hf
+    simp only [Bool.not_eq_true'] at this
+    exact this
+  · intro l hl
+    have := h5 l hl
+    cases ha : env.struct? l.cls with
+    | none => simp [ha] at this
+    | some a =>
+      simp only [ha, Bool.and_eq_true, decide_eq_true_eq] at this
+      exact ⟨a, rfl, this.1, this.2⟩
+  · intro subs hs
+    simp only [hs, Bool.and_eq_true, List.all_eq_true] at h6
+    obtain ⟨⟨g1, g2⟩, g3⟩ := h6
+    refine ⟨g1, ?_, g3⟩
+    intro e he
+    obtain ⟨tags, c, isTree⟩ := e
+    have := g2 _ he
+    simp only [Bool.not_eq_true', bne_iff_ne, ne_eq] at this
+    obtain ⟨⟨g4, g5⟩, g6⟩ := this
+    refine ⟨g4, g5, ?_⟩
+    cases hd : env.struct? c with
+    | none => simp [hd] at g6
+    | some d =>
+      simp only [hd, Bool.and_eq_true, beq_iff_eq] at g6
+      exact ⟨d, rfl, g6.1, g6.2⟩
+
+theorem UnionDef.wf_parts (env : Env) (u : UnionDef) (h : u.wf env = true) :
+    (match u.levels.getLast? with | some l => l.cls == u.cls | none => false) = true ∧
+    nodupS ((u.levels.flatMap (·.tags)).map (·.name)) = true ∧
+    (∀ t ∈ u.levels.flatMap (·.tags), t.name.startsWith "." = false ∧ t.name ≠ "" ∧ tyWF env t.ty = true) ∧
+    (∀ l ∈ u.levels, ∃ a, env.union? l.cls = some a ∧ ulevelsPrefix a.levels u.levels = true ∧
+        a.levels.length ≤ u.levels.length) ∧
+    (∀ n, u.catchAll = some n → ∃ t, findTag n (u.levels.flatMap (·.tags)) = some t ∧ t.omitted = none ∧
+        isVoidTy t.ty = true) := by
+  simp only [UnionDef.wf, Bool.and_eq_true, List.all_eq_true] at h
+  obtain ⟨⟨⟨⟨h1, h2⟩, h3⟩, h4⟩, h5⟩ := h
+  refine ⟨h1, h2, ?_, ?_, ?_⟩
+  · intro t ht
+    have := h3 t ht
+    simp only [Bool.not_eq_true', bne_iff_ne, ne_eq] at this
+    exact ⟨this.1.1, this.1.2, this.2⟩
+  · intro l hl
+    have := h4 l hl
+    cases ha : env.union? l.cls with
+    | none => simp [ha] at this
+    | some a =>
+      simp only [ha, Bool.and_eq_true, decide_eq_true_eq] at this
+      exact ⟨a, rfl, this.1, this.2⟩
+  · intro n hn
+    simp only [hn] at h5
+    cases hf : findTag n (u.levels.flatMap (·.tags)) with
+    | none => simp [hf] at h5
+    | some t =>
+      simp only [hf, Bool.and_eq_true, Option.isNone_iff_eq_none] at h5
+      refine ⟨t, rfl, h5.1, ?_⟩
+      cases hty : t.ty <;> simp_all [isVoidTy]
+
+theorem fieldFlagsWF_struct (env : Env) (h : fieldFlagsWF env = true) (c : String) (s : StructDef)
+    (hs : env.struct? c = some s) : ∀ f ∈ s.allAttrs, f.flagsWF = true := by
+  simp only [fieldFlagsWF, List.all_eq_true] at h
+  exact h s (struct?_mem env c s hs).1
+
+theorem validateTypeOnly_nc (env : Env) (t : PTy) (v : PyVal) (h : isUserTy t = true) :
+    NoCrash (validateTypeOnly env t v) := by
+  unfold validateTypeOnly
+  cases t <;> simp only [isUserTy, Bool.false_eq_true] at h <;> simp only [] <;> repeat' split
+  all_goals first | exact NoCrash.ok _ | exact NoCrash.verr _
+
+theorem attrSet_nc (E : Ext) (env : Env) (f : FieldDef) (slots : List (String × PyVal)) (x : PyVal)
+    (h : f.flagsWF = true) : NoCrash (attrSet E env f slots x) := by
+  rw [attrSet_eq]
+  split
+  · exact NoCrash.ok _
+  · split
+    · rename_i hu
+      simp only [FieldDef.flagsWF, Bool.and_eq_true, Bool.or_eq_true, Bool.not_eq_true'] at h
+      have : isUserTy f.ty = true := by
+        rcases h.1 with h' | h'
+        · rw [hu] at h'; cases h'
+        · exact h'
+      exact NoCrash.map (validateTypeOnly_nc env f.ty x this)
+    · exact NoCrash.map (validate_nc E env f.ty x)
+
+theorem finishFields_nc (E : Ext) (env : Env) (children : List (String × R PyVal))
+    (hc : ∀ k r, childLookup k children = some r → NoCrash r) :
+    ∀ (fields : List FieldDef) (slots : List (String × PyVal)), (∀ f ∈ fields, f.flagsWF = true) →
+    NoCrash (finishFields E env fields children slots) := by
+  intro fields
+  induction fields with
+  | nil => intro slots _; exact NoCrash.ok _
+  | cons f rest ih =>
+    intro slots hfl
+    have hrest := fun g hg => hfl g (List.mem_cons_of_mem _ hg)
+    have hf := hfl f List.mem_cons_self
+    rw [finishFields_cons]
+    split
+    · rename_i e hr
+      intro e' h; exact hc _ _ hr e' (by cases h; rfl)
+    · rename_i v hr
+      cases ha : attrSet E env f slots v with
+      | error e => intro e' h; exact attrSet_nc E env f slots v hf e' (by rw [ha]; exact h)
+      | ok s => exact ih s hrest
+    · split
+      · cases ha : attrSet E env f slots (getDefault f.ty) with
+        | error e => intro e' h; exact attrSet_nc E env f slots _ hf e' (by rw [ha]; exact h)
+        | ok s => exact ih s hrest
+      · exact ih slots hrest
+
+theorem finishStruct_nc (E : Ext) (env : Env) (perms : List String) (strict : Bool) (cls : String)
+    (s : StructDef) (kvs : List (String × JVal)) (children : List (String × R PyVal))
+    (hff : fieldFlagsWF env = true) (hs : env.struct? cls = some s)
+    (hc : ∀ k r, childLookup k children = some r → NoCrash r) :
+    NoCrash (finishStruct E env perms strict cls kvs children) := by
+  unfold finishStruct
+  simp only [hs]
+  split
+  · exact NoCrash.verr _
+  · have := finishFields_nc E env children hc (s.fieldsFor perms) []
+      (fun f hf => fieldFlagsWF_struct env hff cls s hs f (fieldsFor_subset s perms f hf))
+    split
+    · rename_i e he
+      intro e' h; exact this e' (by rw [he]; cases h; rfl)
+    · split
+      · exact NoCrash.ok _
+      · exact NoCrash.verr _
+
+theorem mkUnion_nc (E : Ext) (env : Env) (cls tag : String) (x : PyVal) (u : UnionDef)
+    (hu : env.union? cls = some u) : NoCrash (mkUnion E env cls tag x) := by
+  unfold mkUnion
+  simp only [hu]
+  split
+  · exact NoCrash.verr _
+  · rename_i t ht
+    cases t <;> simp only [] <;> repeat' split
+    all_goals first
+      | exact NoCrash.ok _
+      | exact NoCrash.verr _
+      | exact NoCrash.bind (validateTypeOnly_nc env _ x rfl) fun _ _ => NoCrash.ok _
+      | exact NoCrash.bind (validate_nc E env _ x) fun _ _ => NoCrash.ok _
+      | (exfalso; simp_all)
+
+
+theorem tyWF_withFlags_empty (env : Env) (t : PTy) (h : tyWF env t = true) : tyWF env (t.withFlags {}) = true := by
+  cases t <;> simp_all [tyWF, PTy.withFlags]
+
+theorem structTable_tyWF (env : Env) (hwf : envWF env = true) (perms : List String) (c : String) (s : StructDef)
+    (hs : env.struct? c = some s) (p : String × PTy)
+    (hp : p ∈ (s.fieldsFor perms).map (fun f => (f.name, f.ty))) : tyWF env p.2 = true := by
+  obtain ⟨f, hf, rfl⟩ := List.mem_map.mp hp
+  exact ((StructDef.wf_parts env s (envWF_struct env hwf c s hs)).2.2.2.1 f (fieldsFor_subset s perms f hf)).1
+
+theorem valDataType_tyWF (env : Env) (hwf : envWF env = true) (cls : String) (u : UnionDef)
+    (hu : env.union? cls = some u) (tag : String) (perms : List String) (ft : PTy)
+    (h : u.valDataType tag perms = some ft) : tyWF env ft = true := by
+  obtain ⟨t, ht, _, rfl⟩ := valDataType_mem u tag perms ft h
+  exact ((UnionDef.wf_parts env u (envWF_union env hwf cls u hu)).2.2.1 t ht).2.2
+
+theorem memberTableStruct_tyWF (env : Env) (hwf : envWF env = true) (perms : List String) (ft : PTy) :
+    ∀ p ∈ memberTable.memberTableStruct env perms ft, tyWF env p.2 = true := by
+  unfold memberTable.memberTableStruct
+  repeat' split
+  all_goals first
+    | (intro p hp; cases hp; done)
+    | (intro p hp; exact structTable_tyWF env hwf perms _ _ (by assumption) p hp)
+
+theorem memberTable_tyWF (env : Env) (hwf : envWF env = true) (perms : List String) (strict : Bool) (t : PTy)
+    (kvs : List (String × JVal)) :
+    ∀ p ∈ memberTable env perms strict t kvs, tyWF env p.2 = true := by
+  unfold memberTable
+  cases t <;> simp only [] <;> repeat' split
+  all_goals first
+    | (intro p hp; cases hp; done)
+    | (intro p hp; exact structTable_tyWF env hwf perms _ _ (by assumption) p hp)
+    | exact memberTableStruct_tyWF env hwf perms _
+    | (intro p hp
+       simp only [List.mem_singleton] at hp
+       subst hp
+       exact tyWF_withFlags_empty env _ (valDataType_tyWF env hwf _ _ (by assumption) _ _ _ (by assumption)))
+
+
+/-! ### Nothing but the validation error escapes: the decoder -/
+
+theorem makeStoneFriendly_nc (E : Ext) (env : Env) (perms : List String) (strict : Bool) (b : Bool) (t : PTy) (j : JVal) :
+    NoCrash (makeStoneFriendly E env perms strict b t j) := by
+  unfold makeStoneFriendly
+  cases t <;> simp only [] <;> repeat' split
+  all_goals first
+    | exact NoCrash.ok _
+    | exact NoCrash.verr _
+    | (rename_i e he; intro e' h; exact validate_nc E env _ _ e' (by rw [he]; cases h; rfl))
+
+theorem subtype_registered (env : Env) (hwf : envWF env = true) (cls : String) (s : StructDef)
+    (hs : env.struct? cls = some s) (p : List String × String × Bool → Bool) (e : List String × String × Bool)
+    (hf : (s.subtypes.getD []).find? p = some e) :
+    ∃ subs, s.subtypes = some subs ∧ e ∈ subs ∧ ∃ d, env.struct? e.2.1 = some d ∧
+      levelsPrefix s.levels d.levels = true ∧ d.subtypes.isSome = e.2.2 := by
+  cases hsub : s.subtypes with
+  | none => simp [hsub] at hf
+  | some subs =>
+    simp only [hsub, Option.getD_some] at hf
+    have hmem := List.mem_of_find?_eq_some hf
+    obtain ⟨_, h2, _⟩ := (StructDef.wf_parts env s (envWF_struct env hwf cls s hs)).2.2.2.2.2 subs hsub
+    obtain ⟨_, _, d, hd, hp, hi⟩ := h2 e hmem
+    exact ⟨subs, rfl, hmem, d, hd, hp, hi⟩
+
+theorem memberTable_union_eq (env : Env) (perms : List String) (strict : Bool) (fl : Flags) (cls tag : String)
+    (u : UnionDef) (kvs : List (String × JVal)) (ft : PTy)
+    (htag : jsonLookup ".tag" kvs = some (.str tag)) (hu : env.union? cls = some u)
+    (hp : u.isTagPresent tag perms = true) (hft : u.valDataType tag perms = some ft) :
+    memberTable env perms strict (.union fl cls) kvs =
+      if isPlainStruct ft then memberTable.memberTableStruct env perms ft else [(tag, ft.withFlags {})] := by
+  simp [memberTable, htag, hu, hp, hft]
+
+theorem childLookup_decodeMembers_isSome (E : Ext) (env : Env) (perms : List String) (strict : Bool)
+    (tbl : List (String × PTy)) (k : String) (e : String × PTy) (hfind : tbl.find? (·.1 == k) = some e) :
+    ∀ (kvs : List (String × JVal)), (jsonLookup k kvs).isSome = true →
+    (childLookup k (decodeMembers E env perms strict tbl kvs)).isSome = true := by
+  intro kvs
+  induction kvs with
+  | nil => intro h; simp [jsonLookup] at h
+  | cons kv rest ih =>
+    obtain ⟨k', x⟩ := kv
+    intro h
+    simp only [jsonLookup] at h
+    by_cases hk : (k' == k) = true
+    · have : k' = k := by simpa using hk
+      subst this
+      simp [decodeMembers, hfind, childLookup]
+    · simp only [hk] at h
+      simp only [decodeMembers]
+      split
+      · simp only [childLookup, hk]; exact ih h
+      · exact ih h
+
+theorem decode_nc_of (E : Ext) (env : Env) (perms : List String) (strict : Bool)
+    (hwf : envWF env = true) (hff : fieldFlagsWF env = true) (j : JVal) (t : PTy) (ht : tyWF env t = true)
+    (hlist : ∀ xs item, j = .arr xs → tyWF env item = true → NoCrash (decodeList E env perms strict item xs))
+    (hmap : ∀ kvs vt, j = .obj kvs → tyWF env vt = true → NoCrash (decodeMap E env perms strict vt kvs))
+    (hmem : ∀ kvs tbl, j = .obj kvs → (∀ p ∈ tbl, tyWF env p.2 = true) →
+      ∀ k r, childLookup k (decodeMembers E env perms strict tbl kvs) = some r → NoCrash r) :
+    NoCrash (decode E env perms strict t j) := by
+  cases t with
+  | list fl item a b =>
+    simp only [tyWF] at ht
+    unfold decode
+    cases j <;> simp only [] <;> repeat' split
+    all_goals first
+      | exact NoCrash.ok _
+      | exact NoCrash.verr _
+      | exact NoCrash.map (hlist _ _ rfl ht)
+  | map fl kt vt =>
+    simp only [tyWF, Bool.and_eq_true] at ht
+    unfold decode
+    cases j <;> simp only [] <;> repeat' split
+    all_goals first
+      | exact NoCrash.ok _
+      | exact NoCrash.verr _
+      | exact NoCrash.map (hmap _ _ rfl ht.2)
+  | struct fl cls =>
+    cases hs : env.struct? cls with
+    | none => simp [tyWF, hs] at ht
+    | some s =>
+      unfold decode
+      cases j <;> simp only [] <;> repeat' split
+      all_goals first
+        | exact NoCrash.ok _
+        | exact NoCrash.verr _
+        | exact finishStruct_nc E env perms strict cls s _ _ hff hs
+            (hmem _ _ rfl (memberTable_tyWF env hwf perms strict _ _))
+  | tree fl cls =>
+    cases hs : env.struct? cls with
+    | none => simp [tyWF, hs] at ht
+    | some s =>
+      unfold decode
+      simp only [hs]
+      cases j <;> simp only [] <;> repeat' split
+      all_goals first
+        | exact NoCrash.ok _
+        | exact NoCrash.verr _
+        | (obtain ⟨_, _, _, d, hd, _, _⟩ := subtype_registered env hwf cls s hs _ _ (by assumption)
+           exact finishStruct_nc E env perms strict _ d _ _ hff hd
+            (hmem _ _ rfl (memberTable_tyWF env hwf perms strict _ _)))
+        | exact finishStruct_nc E env perms strict cls s _ _ hff hs
+            (hmem _ _ rfl (memberTable_tyWF env hwf perms strict _ _))
+  | union fl cls =>
+    cases hu : env.union? cls with
+    | none => simp [tyWF, hu] at ht
+    | some u =>
+      have hmk := fun tag x => mkUnion_nc E env cls tag x u hu
+      unfold decode
+      simp only [hu]
+      cases j with
+      | obj kvs =>
+        simp only [Bool.and_false, Bool.false_eq_true, if_false]
+        cases htag : jsonLookup ".tag" kvs with
+        | none => exact NoCrash.verr _
+        | some x =>
+          cases x with
+          | str tag =>
+            simp only []
+            by_cases hp : u.isTagPresent tag perms = true
+            · simp only [hp, Bool.not_true, Bool.false_eq_true, if_false]
+              by_cases hca : (some tag == u.catchAll) = true
+              · simp only [hca, if_true]; exact NoCrash.verr _
+              · simp only [hca, Bool.false_eq_true, if_false]
+                obtain ⟨ft, hft⟩ := Option.isSome_iff_exists.mp (valDataType_isSome_of_present u tag perms hp)
+                simp only [hft]
+                have htf : tyWF env ft = true := valDataType_tyWF env hwf cls u hu tag perms ft hft
+                have hch := hmem kvs (memberTable env perms strict (.union fl cls) kvs) rfl
+                  (memberTable_tyWF env hwf perms strict _ _)
+                by_cases hv : isVoidTy ft = true
+                · simp only [hv, if_true]
+                  repeat' split
+                  all_goals first
+                    | exact NoCrash.verr _
+                    | exact hmk _ _
+                · simp only [hv, Bool.false_eq_true, if_false]
+                  by_cases hps : isPlainStruct ft = true
+                  · simp only [hps, if_true]
+                    split
+                    · exact hmk _ _
+                    · cases ft <;> simp only [isPlainStruct, Bool.false_eq_true] at hps
+                      rename_i sc hnl
+                      simp only []
+                      cases hd : env.struct? sc with
+                      | none => simp [tyWF, hd] at htf
+                      | some d =>
+                        have := finishStruct_nc E env perms strict sc d kvs _ hff hd hch
+                        split
+                        · exact hmk _ _
+                        · rename_i e he
+                          intro e' h; exact this e' (by rw [he]; cases h; rfl)
+                  · simp only [hps, Bool.false_eq_true, if_false]
+                    split
+                    · rename_i e he
+                      split at he
+                      · rename_i r hr
+                        intro e' h; exact hch _ _ hr e' (by rw [he]; cases h; rfl)
+                      · rename_i hr
+                        split at he
+                        · rename_i hjs
+                          exfalso
+                          rw [memberTable_union_eq env perms strict fl cls tag u kvs ft htag hu hp hft] at hr
+                          simp only [hps, Bool.false_eq_true, if_false] at hr
+                          have := childLookup_decodeMembers_isSome E env perms strict
+                            [(tag, ft.withFlags {})] tag (tag, ft.withFlags {}) (by simp) kvs hjs
+                          rw [hr] at this
+                          cases this
+                        · split at he
+                          · cases he
+                          · cases he; exact NoCrash.verr' _
+                    · split
+                      · exact NoCrash.verr _
+                      · exact hmk _ _
+            · simp only [hp, Bool.not_false, if_true]
+              split
+              · exact hmk _ _
+              · exact NoCrash.verr _
+          | _ => exact NoCrash.verr _
+      | str tag =>
+        simp only [Bool.and_false, Bool.false_eq_true, if_false]
+        by_cases hp : u.isTagPresent tag perms = true
+        · simp only [hp, if_true]
+          obtain ⟨ft, hft⟩ := Option.isSome_iff_exists.mp (valDataType_isSome_of_present u tag perms hp)
+          simp only [hft]
+          repeat' split
+          all_goals first
+            | exact NoCrash.verr _
+            | exact hmk _ _
+        · simp only [hp, Bool.false_eq_true, if_false]
+          split
+          · exact hmk _ _
+          · exact NoCrash.verr _
+      | _ =>
+        simp only []
+        repeat' split
+        all_goals first
+          | exact NoCrash.ok _
+          | exact NoCrash.verr _
+  | _ =>
+    unfold decode
+    cases j <;> simp only [] <;> repeat' split
+    all_goals first
+      | exact NoCrash.ok _
+      | exact makeStoneFriendly_nc E env perms strict _ _ _
+
+section
+set_option linter.unusedSectionVars false
+variable (E : Ext) (env : Env) (perms : List String) (strict : Bool)
+  (hwf : envWF env = true) (hff : fieldFlagsWF env = true)
+include hwf hff
+
+mutual
+theorem decode_nc : ∀ (j : JVal) (t : PTy), tyWF env t = true → NoCrash (decode E env perms strict t j)
+  | .null, t, ht => decode_nc_of E env perms strict hwf hff _ t ht (fun _ _ h => by cases h) (fun _ _ h => by cases h)
+      (fun _ _ h => by cases h)
+  | .bool _, t, ht => decode_nc_of E env perms strict hwf hff _ t ht (fun _ _ h => by cases h) (fun _ _ h => by cases h)
+      (fun _ _ h => by cases h)
+  | .int _, t, ht => decode_nc_of E env perms strict hwf hff _ t ht (fun _ _ h => by cases h) (fun _ _ h => by cases h)
+      (fun _ _ h => by cases h)
+  | .flt _, t, ht => decode_nc_of E env perms strict hwf hff _ t ht (fun _ _ h => by cases h) (fun _ _ h => by cases h)
+      (fun _ _ h => by cases h)
+  | .str _, t, ht => decode_nc_of E env perms strict hwf hff _ t ht (fun _ _ h => by cases h) (fun _ _ h => by cases h)
+      (fun _ _ h => by cases h)
+  | .arr xs, t, ht => decode_nc_of E env perms strict hwf hff _ t ht
+      (fun xs' item h hi => by cases h; exact decodeList_nc xs item hi) (fun _ _ h => by cases h)
+      (fun _ _ h => by cases h)
+  | .obj kvs, t, ht => decode_nc_of E env perms strict hwf hff _ t ht (fun _ _ h => by cases h)
+      (fun kvs' vt h hv => by cases h; exact decodeMap_nc kvs vt hv)
+      (fun kvs' tbl h htbl => by cases h; exact decodeMembers_nc kvs tbl htbl)
+theorem decodeList_nc : ∀ (xs : List JVal) (t : PTy), tyWF env t = true → NoCrash (decodeList E env perms strict t xs)
+  | [], _, _ => NoCrash.ok _
+  | x :: xs, t, ht => by
+    simp only [decodeList]
+    exact NoCrash.bind (decode_nc x t ht) fun _ _ => NoCrash.bind (decodeList_nc xs t ht) fun _ _ => NoCrash.ok _
+theorem decodeMap_nc : ∀ (kvs : List (String × JVal)) (t : PTy), tyWF env t = true →
+    NoCrash (decodeMap E env perms strict t kvs)
+  | [], _, _ => NoCrash.ok _
+  | (k, x) :: rest, t, ht => by
+    simp only [decodeMap]
+    exact NoCrash.bind (decode_nc x t ht) fun _ _ => NoCrash.bind (decodeMap_nc rest t ht) fun _ _ => NoCrash.ok _
+theorem decodeMembers_nc : ∀ (kvs : List (String × JVal)) (tbl : List (String × PTy)),
+    (∀ p ∈ tbl, tyWF env p.2 = true) →
+    ∀ k r, childLookup k (decodeMembers E env perms strict tbl kvs) = some r → NoCrash r
+  | [], _, _, k, r, h => by simp [decodeMembers, childLookup] at h
+  | (k', x) :: rest, tbl, htbl, k, r, h => by
+    simp only [decodeMembers] at h
+    split at h
+    · rename_i ft hfind
+      simp only [childLookup] at h
+      split at h
+      · cases h
+        exact decode_nc x ft (htbl _ (List.mem_of_find?_eq_some hfind))
+      · exact decodeMembers_nc rest tbl htbl k r h
+    · exact decodeMembers_nc rest tbl htbl k r h
+end
+
+end
+
 end StoneVerif.Rt
